@@ -371,6 +371,87 @@ LAYERED_HOOKS = {
 }
 
 
+def rule_open_keywords(idx: ProgramIndex, rep: Report):
+    """Open keyword plumbing: a constructor that takes ``**params``, splits them into dictionaries, hands every part to
+    ``super().__init__(..., **part_a, **part_b)`` and keeps the parts as attributes (``self.part_a = part_a``) must get every
+    part back at each of its rebuild sites - a ``**`` expansion that derives from ``self.part_x`` (directly, through a local
+    computed from it, or through the parameter of a private helper whose callers pass such a value) or from ``self._kwargs``."""
+    rep.rule("C02.Q", "rebuild sites hand back every part of the open keyword parameters (**params) of the constructor", floor=1)
+    for c in idx.operator_classes():
+        init = c.methods.get("__init__")
+        if init is None or init.node.args.kwarg is None:
+            continue
+        sup = [n for n in walk_body(init) if isinstance(n, ast.Call) and isinstance(n.func, ast.Attribute) and n.func.attr == "__init__"
+               and isinstance(n.func.value, ast.Call) and isinstance(n.func.value.func, ast.Name) and n.func.value.func.id == "super"]
+        star_names = {k.value.id for n in sup for k in n.keywords if k.arg is None and isinstance(k.value, ast.Name)}
+        parts = {}
+        for n in walk_body(init):
+            if isinstance(n, ast.Assign) and len(n.targets) == 1 and isinstance(n.targets[0], ast.Attribute) \
+                    and isinstance(n.targets[0].value, ast.Name) and n.targets[0].value.id == "self" \
+                    and isinstance(n.value, ast.Name) and n.value.id in star_names and n.value.id != init.node.args.kwarg.arg:
+                parts[n.targets[0].attr] = n.value.id  # (the ** parameter kept whole is a constructor flag of C02.R)
+        if not parts:
+            continue
+
+        def classify(fn: FunctionInfo, e: ast.AST, depth: int = 0) -> Set[str]:
+            """Which parts the value of a ** expansion carries ('?' = cannot tell: counts as everything)."""
+            txt = norm(e)
+            if "_kwargs" in txt:
+                return set(parts)
+            hit = {p_ for p_ in parts if f"self.{p_}" in txt}
+            if hit:
+                return hit
+            if isinstance(e, ast.Name):
+                defs = [n.value for n in walk_body(fn) if isinstance(n, ast.Assign) and any(
+                    isinstance(t, ast.Name) and t.id == e.id for t in n.targets)]
+                defs += [n.iter for n in walk_body(fn) if isinstance(n, ast.For) and any(isinstance(x, ast.Name) and x.id == e.id for x in ast.walk(n.target))]
+                out: Set[str] = set()
+                for d in defs:
+                    out |= {p_ for p_ in parts if f"self.{p_}" in norm(d)}
+                    if "_kwargs" in norm(d):
+                        out |= set(parts)
+                if out:
+                    return out
+                if defs:
+                    return {"?"}
+                if e.id in fn.params() and depth < 2 and fn.name.startswith("_") and not fn.name.startswith("__"):
+                    pos = fn.params().index(e.id) - 1
+                    out = set()
+                    n_sites = 0
+                    for g in c.methods.values():
+                        for call in walk_body(g):
+                            if isinstance(call, ast.Call) and isinstance(call.func, ast.Attribute) and call.func.attr == fn.name \
+                                    and isinstance(call.func.value, ast.Name) and call.func.value.id == "self":
+                                arg = call.args[pos] if 0 <= pos < len(call.args) else next(
+                                    (k.value for k in call.keywords if k.arg == e.id), None)
+                                if arg is None:
+                                    return {"?"}
+                                n_sites += 1
+                                out |= classify(g, arg, depth + 1)
+                    return out if n_sites else {"?"}
+            return {"?"}
+
+        for mname, fn in c.methods.items():
+            if mname == "__init__":
+                continue
+            for call, kind in rebuild_calls(fn, c):
+                stars = [k.value for k in call.keywords if k.arg is None]
+                covered: Set[str] = set()
+                for e in stars:
+                    covered |= classify(fn, e)
+                sample = {"class": c.name, "site": f"{c.name}.{mname}", "parts": sorted(parts), "handed_back": sorted(covered)}
+                missing = sorted(set(parts) - covered) if "?" not in covered else []
+                if missing:
+                    rep.bad("C02.Q", Finding(
+                        PROP, "C02.Q", f"{c.name}.{mname}", f"rebuild does not hand back {missing}",
+                        f"{c.name}.__init__ splits its open keyword parameters (**{init.node.args.kwarg.arg}) into {sorted(parts)} and keeps "
+                        f"them as attributes; the rebuild `{short(call, 70)}` in {mname} passes no ** expansion that derives from "
+                        f"{', '.join('self.' + m_ for m_ in missing)}: the new operator is built without these parameters (a kernel "
+                        "evaluated with default hyper-parameters) and denotes a different matrix", fn.loc(call)), sample)
+                else:
+                    rep.ok("C02.Q", sample)
+
+
 def derive_layered_hooks(idx: ProgramIndex) -> Dict[str, str]:
     """canonical hook name -> the name it has in this tree.  The hook is the private method the public wrapper of the operator
     base class calls on ``self`` inside its ``torch.is_tensor(<operand>)`` branch (where the precondition has been established);
@@ -455,6 +536,7 @@ def run(idx: ProgramIndex, rep: Report, tier: str, selftest: bool = True):
     rule_scalar(idx, rep)
     rule_scalar_dtype(idx, rep)
     rule_hook_layering(idx, rep)
+    rule_open_keywords(idx, rep)
     from ..recordmut import report_denotation_container_mutations
 
     from .side import check_sides
